@@ -33,13 +33,20 @@ where
     type Error = io::Error;
 
     async fn read_at(&mut self, offset: u64, size: usize) -> Result<Bytes, io::Error> {
+        // The size may come from an archive header which is not yet verified, so do not
+        // allocate it up front; grow the buffer while data actually arrives instead.
+        const MAX_PREALLOCATE: usize = 1024 * 1024;
         self.0.seek(io::SeekFrom::Start(offset)).await?;
-        let mut buf = BytesMut::with_capacity(size);
+        let mut buf = BytesMut::with_capacity(std::cmp::min(size, MAX_PREALLOCATE));
         while buf.len() < size {
+            if buf.capacity() == buf.len() {
+                buf.reserve(std::cmp::min(size - buf.len(), MAX_PREALLOCATE));
+            }
             if self.0.read_buf(&mut buf).await? == 0 {
                 return Err(io::ErrorKind::UnexpectedEof.into());
             }
         }
+        buf.truncate(size);
         Ok(buf.freeze())
     }
 
